@@ -193,7 +193,7 @@ func checkC03(p *core.Program, r *core.Report) {
 			r.Bad("R1", key, p.Pos(cs.Pos()), "contact mutator "+name+" called outside the modifier/owner set: the change bypasses the event pairing")
 		}
 	}
-	r.Require("mutator_call_sites", nSites, 15)
+	r.Require("mutator_call_sites", nSites, 8)
 	for _, fname := range c03ContactFields {
 		fv := p.FieldOf("flows", "Contact", fname)
 		if fv == nil {
@@ -1467,7 +1467,7 @@ func c03R7(p *core.Program, r *core.Report) {
 		r.Check(c.kind == major, "R7", core.FuncName(c.fn)+"/urn-comparison", p.Pos(c.bo.Pos()), c.kind,
 			fmt.Sprintf("%s compares URNs as %s while the sibling methods compare %s: HasURN can say yes for a URN that RemoveURN then does not find (display or query differ), so a removal reports `modified` and emits an event without changing the contact", core.FuncName(c.fn), c.kind, major))
 	}
-	r.Require("contact_urn_comparisons", len(cmps), 2)
+	r.Require("contact_urn_comparisons", len(cmps), 1)
 
 	// ContactURN.Equal
 	eq := p.Method("flows", "ContactURN", "Equal")
